@@ -8,6 +8,10 @@ import vlib
 from vlib import Infra, log
 
 
+# keep the many short-lived TLC JVMs of a check from grabbing every core for JIT/GC threads
+JOPTS = "-XX:ParallelGCThreads=2 -XX:CICompilerCount=2"
+
+
 def split_at(path, outdir, starts, max_events=40000, prefix="chunk"):
     """Split an ndjson trace into chunks of <= max_events that begin at a line starting with one of
     `starts` (tuple of prefixes). Returns (chunk paths, global line offset of each chunk)."""
@@ -33,14 +37,17 @@ def split_at(path, outdir, starts, max_events=40000, prefix="chunk"):
 
 
 def validate_trace(module, cfg, gen, trace_path, starts, prop_tags=("REJECT",), workers=12, max_events=40000,
-                   heap="3g", dfs=False, timeout=1800):
+                   heap="3g", dfs=False, timeout=1800, jopts=JOPTS):
     """Run a *Trace spec over a (chunked) trace. Returns dict: rejects [(global line, [printed values], event)],
     tagged {tag: [[values]]}, states, events. The whole trace must be consumed, else Infra."""
     d = vlib.scratch("chunks-")
     chunks, base = split_at(trace_path, d, starts, max_events)
 
     def one(i):
-        r = vlib.run_tlc(module, cfg, gen=gen, env={"TRACE_FILE": chunks[i]}, workers=1, timeout=timeout, heap=heap, dfs=dfs)
+        env = {"TRACE_FILE": chunks[i]}
+        if jopts:
+            env["JAVA_TOOL_OPTIONS"] = jopts
+        r = vlib.run_tlc(module, cfg, gen=gen, env=env, workers=1, timeout=timeout, heap=heap, dfs=dfs)
         if r.violation:
             raise Infra("%s: trace chunk %d not consumed: %s\n%s" % (module, i, r.violation, r.out[-3000:]))
         return i, r
